@@ -13,6 +13,7 @@ from typing import Any
 from harness.common import Ck, REPO, coq_list, coq_str, parse_coq_N_list, parse_coq_nested
 from harness import c06_util as U
 from translate import c06_vmf as T
+from translate import c06_prog as P
 
 MANIFEST = dict(
     technique='Rocq proof of five obligation families over objects generated from vmf.py by a fail-closed ast translator '
@@ -37,8 +38,9 @@ MANIFEST = dict(
          'Known findings: "-0" text (math.format_float, C05) and cordon_enabled without cordons.',
 )
 
-IMPORTS = ['Coq.NArith.NArith', 'Coq.ZArith.ZArith', 'Coq.Lists.List', 'Coq.Strings.String', 'SV.Fmt.VmfText',
-           'SV.Gen.VmfTemplates_gen', 'SV.Gen.VmfKeys_gen', 'SV.Gen.VmfDispSizes_gen', 'SV.Gen.VmfOrder_gen', 'SV.Props.C06']
+IMPORTS = ['Coq.NArith.NArith', 'Coq.ZArith.ZArith', 'Coq.Lists.List', 'Coq.Strings.String', 'SV.KV.KvBase', 'SV.Fmt.VmfText',
+           'SV.Fmt.VmfBlocks', 'SV.Gen.VmfTemplates_gen', 'SV.Gen.VmfKeys_gen', 'SV.Gen.VmfDispSizes_gen', 'SV.Gen.VmfOrder_gen',
+           'SV.Gen.VmfProg_gen', 'SV.Props.C06']
 PRE = '''Import ListNotations. Open Scope string_scope.
 Fixpoint nl_eqb (a b : list N) : bool := match a, b with [], [] => true | x :: a', y :: b' => N.eqb x y && nl_eqb a' b' | _, _ => false end.
 Fixpoint bad_idx {A} (f : A -> bool) (n : N) (l : list A) : list N := match l with [] => [] | x :: r => (if f x then [] else [n]) ++ bad_idx f (n + 1)%N r end.
@@ -376,6 +378,10 @@ def search(ck: Ck) -> None:
     # quick: 450 maps; quick with a broken tie: 3000 (about 90 s); thorough: 9000
     n = 9000 if ck.thorough else ck.budget(450, 3000)
     found: dict[str, tuple[dict, str, dict]] = {}
+    # Shrinking budget, counted in oracle evaluations (not wall time, so that results are reproducible): per violation key
+    # and in total.  A fault in a hot path produces dozens of keys on big maps; the total keeps a failing run within minutes.
+    per_key = 200 if ck.thorough else 60
+    total = [2500 if ck.thorough else 420]
 
     def consider(spec: dict, label: str) -> None:
         res = U.check_spec(spec)
@@ -385,10 +391,16 @@ def search(ck: Ck) -> None:
                 ck.notes.append(f'generator produced a map the API refused ({label}): {what[:200]}')
                 continue
             if key not in found:
+                calls = [0]
+
                 def same(s: dict, key: str = key) -> bool:
+                    calls[0] += 1
                     return any(k == key for k, _, _ in U.check_spec(s))
-                small = U.shrink_spec(spec, same, ck.budget(120, 400))
-                w2 = next((w for k, w, _ in U.check_spec(small) if k == key), what)
+                budget = min(per_key, total[0])
+                small = U.shrink_spec(spec, same, budget) if budget > 0 else spec
+                total[0] -= calls[0]
+                ck.count('shrink_evaluations', calls[0])
+                w2 = next((w for k, w, _ in U.check_spec(small) if k == key), what) if budget > 0 else what
                 found[key] = (small, w2, det)
             else:
                 ck.count('repeat_violations')
@@ -447,7 +459,7 @@ def run(ck: Ck) -> None:
         'float(text) returns the double nearest to the decimal text (re-reading adds at most half an ulp to the bounds of family 4)',
         'the composition of the five obligation families into the whole-map statement is informal; glue is covered by the search only',
     ]
-    oks = [ck.translate(name, fn) for name, fn in T.GEN.items()]
+    oks = [ck.translate(name, fn) for name, fn in {**T.GEN, **P.GEN}.items()]
     tr = ck.extra.get('translated', {})
     built = all(oks) and ck.build(['Props/C06.vo'])
     if built:
@@ -466,6 +478,13 @@ def run(ck: Ck) -> None:
         obs['fixup_index_written_2_read_2'] = '(Nat.eqb gen_fixup_width_written 2 && Nat.eqb gen_fixup_chars_read 2)%bool'
         obs['every_writer_method_has_sites'] = ('forallb (fun fn => orb (negb (Nat.eqb (List.length (sites_of fn kv_sites)) 0)) '
                                                 '(str_eqb fn "Output.export")) writer_methods')
+        # block-level write programs (round 2): one obligation per (specialised) export method
+        prog = tr.get('VmfProg_gen', {})
+        for fid, label in sorted(prog.get('functions', {}).items()):
+            obs[f'program_ok:{label}'] = f'prog_ok vmf_nums (fun_lookup vmf_progs {fid}%N)'
+        obs['programs_all_ok'] = 'table_ok vmf_nums vmf_progs'
+        obs['program_calls_defined'] = 'calls_defined vmf_progs'
+        obs['program_methods_complete'] = f'({len(T.EXPORT_FUNCS) - 1} <=? List.length vmf_progs)%nat'
         res = ck.instance_obligations(IMPORTS, obs, name='c06')
         if not all(res.values()):
             ck.tie_broken.append('instance obligations failed: ' + ', '.join(k for k, v in res.items() if not v))
